@@ -1096,6 +1096,10 @@ func (m *Manager) isValidSignedData(signedData *types.SignedData) bool {
 	if !bytes.Equal(signedData.Signer.Address, m.genesis.ProposerAddress) {
 		return false
 	}
+	// the address only identifies the proposer if it is the one derived from the key that signed
+	if signedData.Signer.PubKey == nil || !bytes.Equal(signedData.Signer.Address, types.KeyAddress(signedData.Signer.PubKey)) {
+		return false
+	}
 	dataBytes, err := signedData.Data.MarshalBinary()
 	if err != nil {
 		return false
